@@ -506,6 +506,86 @@ def e2e(fb, rep):
                 pass
 
 
+def e2f(fb, rep):
+    """tail-position propagation in the bytecode compiler: a call in tail position is emitted as TailCall"""
+    R = "E2f"
+    rep.rule(R, "the compiler hands its tail_position flag to every continuation sub-expression and to emit_call")
+    from . import e11
+    C = "gluon_vm::compiler::Compiler::<'a>::"
+    ec = fb.body("gluon_vm::compiler::FunctionEnv::emit_call")
+    if ec is None:
+        rep.anchor_lost(R, "FunctionEnv::emit_call")
+    else:
+        ok = False
+        for bb, srcs, true_t, false_t in flow.bool_switches(ec):
+            if ("arg", 3) in srcs:
+                tc = set(flow.blocks_constructing(ec, "gluon_vm::types::Instruction", "TailCall"))
+                cl = set(flow.blocks_constructing(ec, "gluon_vm::types::Instruction", "Call"))
+                if tc & ec.reachable(true_t, avoid_blocks=[false_t]) and cl & ec.reachable(false_t, avoid_blocks=[true_t]) \
+                        and not (tc & ec.reachable(false_t, avoid_blocks=[true_t])):
+                    ok = True
+        if ok:
+            rep.ok(R, "emit_call: tail_position -> TailCall, otherwise Call")
+        else:
+            rep.violation(R, "emit-call-shape", "emit_call no longer selects TailCall exactly when tail_position is set", ec.where())
+
+    def tail_args(b, pred, tail_param):
+        """for calls satisfying pred: (call, derived_from_param?)"""
+        out = []
+        for c in b.calls():
+            if pred(c):
+                a = c.args[-1]
+                srcs = flow.sources(b, a)
+                out.append((c, ("arg", tail_param) in srcs))
+        return out
+    comp = fb.body(C + "compile")
+    comp_ = fb.body(C + "compile_")
+    prim = fb.body(C + "compile_primitive")
+    if comp is None or comp_ is None or prim is None:
+        rep.anchor_lost(R, "Compiler::compile / compile_ / compile_primitive")
+        return
+    # compile -> compile_ with the same flag
+    xs = tail_args(comp, lambda c: c.res == C + "compile_", 4)
+    if xs and all(d for _, d in xs):
+        rep.ok(R, "compile passes tail_position on to compile_ (loop over let/match continuations)")
+    else:
+        rep.violation(R, "tail-flag-dropped|compile", "Compiler::compile does not pass its tail_position to compile_", comp.where())
+    # compile_: emit_call, compile_primitive and the match alternatives get the flag
+    for what, pred in (("emit_call", lambda c: c.res.endswith("FunctionEnv::emit_call")),
+                       ("compile_primitive", lambda c: c.res == C + "compile_primitive")):
+        xs = tail_args(comp_, pred, 4)
+        if xs and all(d for _, d in xs):
+            rep.ok(R, "compile_: %s receives tail_position (%d sites)" % (what, len(xs)))
+        else:
+            rep.violation(R, "tail-flag-dropped|compile_|%s" % what, "compile_ calls %s with a tail flag that is not its own tail_position" % what, (xs[0][0].where() if xs else comp_.where()))
+    alts = [(c, d) for c, d in tail_args(comp_, lambda c: c.res == C + "compile", 4)]
+    n_tail = sum(1 for _, d in alts if d)
+    if n_tail >= 1:
+        rep.ok(R, "compile_: %d of %d nested compile calls are continuations in tail position (match alternatives)" % (n_tail, len(alts)))
+    else:
+        rep.violation(R, "tail-flag-dropped|compile_|alternatives", "no nested compile call of compile_ receives tail_position (match alternatives lose their tail calls)", comp_.where())
+    # compile_primitive: `&&` and `||` compile their right operand (the last operand compiled) with the flag
+    tab = e11._str_match_table(prim, fb=fb)
+    for opname in ("&&", "||"):
+        blk = tab.get(opname)
+        if blk is None:
+            rep.violation(R, "no-case|%s" % opname, "compile_primitive has no case for `%s`" % opname, prim.where())
+            continue
+        other_blks = [v for k, v in tab.items() if k != opname and v != blk and not prim.dominates(blk, v)]
+        region = prim.reachable(blk) - prim.reachable(other_blks)
+        cs = [(c, d) for c, d in tail_args(prim, lambda c: c.res == C + "compile", 5) if c.bb in region]
+        if len(cs) >= 2:
+            last = [x for x in cs if all(prim.dominates(y[0].bb, x[0].bb) for y in cs)]
+            if last and last[0][1]:
+                rep.ok(R, "`%s`: the right operand is compiled with the caller's tail_position" % opname)
+            else:
+                rep.violation(R, "tail-flag-dropped|compile_primitive|%s" % opname,
+                              "`%s` compiles its right operand (the value of the whole expression) without the caller's tail_position: a call there is never a TailCall" % opname,
+                              (last[0][0].where() if last else prim.where()))
+        else:
+            rep.violation(R, "operand-count|%s" % opname, "`%s` no longer compiles two operands" % opname, prim.where())
+
+
 def run(fb, rep, tier, cfg):
     rep.explanation = (
         "Static analysis of gluon_vm's resolved MIR (rustc_private driver, -Zmir-opt-level=0). Decides structural "
@@ -527,5 +607,6 @@ def run(fb, rep, tier, cfg):
     e2b(fb, rep)
     e2c(fb, rep)
     e2e(fb, rep)
+    e2f(fb, rep)
     from . import e2d
     e2d.run(fb, rep)
